@@ -177,12 +177,17 @@ def run(tier, seed):
                 sig = corecheck.signature(results[i]["trace"], m)
                 sig["family"] = "client-transfer"
                 chk.violation(sig, {"first_unmatched": results[i]["trace"][m]}, {"case": cases[i]})
+    # 3. another session looks at or downloads the file while the transfer is in progress
+    obs = gen.observer_family()
+    for backend in ("memory", "path") if tier == "quick" else ("memory", "path", "async"):
+        corecheck.validate(chk, gen.std_cfg(ns=2, backend=backend), gen.STD_TREE, obs, label="observer:" + backend)
     chk.cov["rule"] = ("real client streams (upload_stream / append_stream / download_stream with offset) against the real server: "
                        "payload lengths 0,1,B-1,B,B+1,2B,2B+1,3B for block sizes B, position-tagged bytes, CR/LF/NUL/IAC runs, all 256 "
                        "values, existing lengths 0,2,5, restart offsets 0/inside/at end/beyond, client write chunkings and read sizes, "
                        "network segment sizes and latencies, EPSV/PASV, three backends, throttled; Transfer.tla judges stored and "
                        "delivered bytes, visibility to another session after the 226, stat and listing size; each execution is also "
-                       "validated against FtpCore; distinct = distinct cases")
+                       "validated against FtpCore; wire-level family: a second session stats, lists or downloads the file while the transfer "
+                       "is held in its j-th read or write; distinct = distinct cases")
     chk.cov["distinct_nontrivial"] = len({json.dumps(c, sort_keys=True) for c in cases})
     chk.sample({k: v for k, v in cases[5].items()})
     chk.sample(results[5]["rec"])
